@@ -84,6 +84,26 @@ def _install():
             raise
         _emit(dict(call="TranslationParser", text=str(user_input), err=""))
     tr.TranslationParser.__init__ = t_init
+    # inputs only (the grids are re-built and projected by the drivers of C07 / C09)
+    import molgri.space.rotobj as ro
+    orig_c = ro.SphereGridFactory.create.__func__ if hasattr(ro.SphereGridFactory.create, "__func__") else ro.SphereGridFactory.create
+
+    def create(cls, alg_name, N, dimensions, *a, **k):
+        _emit(dict(call="SphereGridFactory.create", alg=str(alg_name), N=(int(N) if N is not None else -1), dim=int(dimensions)))
+        return orig_c(cls, alg_name, N, dimensions, *a, **k)
+    try:
+        ro.SphereGridFactory.create = classmethod(create)
+    except Exception:
+        pass
+    import molgri.space.fullgrid as fgm
+    orig_f = fgm.FullGrid.__init__
+
+    @functools.wraps(orig_f)
+    def f_init(self, b_grid_name, o_grid_name, t_grid_name, *a, **k):
+        _emit(dict(call="FullGrid", b=str(b_grid_name), o=str(o_grid_name), t=str(t_grid_name),
+                   cartesian=bool(k.get("position_grid_cartesian", False)), factor=float(k.get("factor", 2))))
+        orig_f(self, b_grid_name, o_grid_name, t_grid_name, *a, **k)
+    fgm.FullGrid.__init__ = f_init
 
 
 if _OUT:
